@@ -198,7 +198,7 @@ pub fn run_round(r: &Round) -> bool {
       for t in 0..n {
         plans[t].push(Step::Res(ks[t % len].clone(), Via::Get));
       }
-      limit = Duration::from_millis(2000);
+      limit = Duration::from_millis(3000);
     }
     s => panic!("unknown scenario {s}"),
   }
